@@ -5,7 +5,8 @@ discipline `Model.Protocol.disciplined`; with Byzantine power below one third, t
 different blocks at `H` (`node_models_agree`, through `Props.C01.agreement`).
 
 Network hypotheses are explicit in the step relation `SysStep.deliver`:
-* `WellTimed`: the ticker fires only timeouts the node scheduled;
+* `Sched` (the ticker): a delivered timeout is one the node scheduled earlier (it is among its outputs) or a round-0 timeout;
+  `WellTimed` is DERIVED from it (invariant `TimeoutsOK`);
 * `Recv` (unforgeability): an ACCEPTABLE vote input (signature, size and address verdict `ok = true`) for height `H` naming
   validator `j` is an event of the history so far — a correct signer's vote was emitted by its node, the adversary's votes are
   events too.  That every vote in a correct node's tables is in the history (`Seen`) is then an invariant, DERIVED from the frame
@@ -155,6 +156,7 @@ structure NodeCtx (H n : Nat) (hist : List Event) (s : St) (log : List Out) : Pr
   below : Below s log
   once : Once log
   held : PrecommitsHeld s log
+  tmo : TimeoutsOK s log
   own : ∀ e ∈ hist, actor e = n → e ∈ evsOf H n log
 
 theorem stamp_prevote (h r v : Nat) : stamp (.vote tPrevote h r v) = some (r * 16 + 4) := by simp [stamp]
@@ -339,6 +341,20 @@ theorem event_ok (powers : List Nat) (byz : Nat → Bool) {H n : Nat} {hist : Li
 
 /-! ## the system: correct node models + an adversary -/
 
+/-- the ticker: a delivered timeout is one the node scheduled earlier (it is among its outputs), or the round-0 timeout that starts a
+node (`OnStart` schedules it before the model's first step) -/
+def Sched (log : List Out) (i : In) : Prop :=
+  ∀ h r st, i = .timeout h r st → Out.timeout h r st ∈ log ∨ r = 0
+
+/-- `WellTimed` is not assumed: it follows from the ticker model and the invariant on scheduled timeouts -/
+theorem wellTimed_of_sched {s : St} {log : List Out} {i : In} (hl : TimeoutsOK s log) (hs : Sched log i) : WellTimed s i := by
+  intro h r st e hh
+  rcases hs h r st e with hm | h0
+  · rcases hl h r st hm with h1 | ⟨_, h2⟩
+    · omega
+    · exact h2
+  · omega
+
 /-- unforgeability: an acceptable vote input for height `H` is an event of the history -/
 def Recv (H : Nat) (hist : List Event) (i : In) : Prop :=
   ∀ t r j v tot src, i = .vote t H r j v tot src true →
@@ -363,7 +379,7 @@ theorem fresh_tables (x : St) (hx : x.rvs = [(0, RV.empty)]) : (∀ r, (x.pvs r)
 /-- `Seen` after recording the input: from the invariant, the frame theorem `Grow` and unforgeability -/
 theorem seen_stepCore {H : Nat} {hist : List Event} {s : St} (i : In) (hw : W s) (ht : WellTimed s i)
     (hs : SeenAt H hist s) (hrecv : Recv H hist i) : SeenAt H hist (stepCore s i) := by
-  obtain ⟨_, hh, _, _, _, _, _, _, _, _, _, _, hgrow⟩ := Spec_unfold hw (stepCore_Spec s i ht)
+  obtain ⟨_, hh, _, _, _, _, _, _, _, _, _, _, hgrow, _⟩ := Spec_unfold hw (stepCore_Spec s i ht)
   intro hH
   have hsH : s.height = H := by rw [← hh]; exact hH
   obtain ⟨h1, h2⟩ := hs hsH
@@ -416,9 +432,9 @@ def upd {α : Type} (f : Nat → α) (n : Nat) (a : α) : Nat → α := fun m =>
 inductive SysStep (powers : List Nat) (byz : Nat → Bool) (H : Nat) : Sys → Sys → Prop
   /-- the adversary adds any event of a Byzantine validator -/
   | adversary (σ : Sys) (e : Event) (hb : byz (actor e) = true) : SysStep powers byz H σ { σ with hist := σ.hist ++ [e] }
-  /-- a correct validator's node handles one input.  Network hypotheses: the timeout is one the node scheduled (`WellTimed`), and an
+  /-- a correct validator's node handles one input.  Environment hypotheses: a timeout is one the node scheduled (`Sched`), and an
   acceptable vote for height `H` is an event of the history (`Recv`) -/
-  | deliver (σ : Sys) (n : Nat) (i : In) (hn : byz n = false) (ht : WellTimed (σ.st n) i) (hrecv : Recv H σ.hist i) :
+  | deliver (σ : Sys) (n : Nat) (i : In) (hn : byz n = false) (hsch : Sched (σ.log n) i) (hrecv : Recv H σ.hist i) :
       SysStep powers byz H σ { st := upd σ.st n (step (σ.st n) i), log := upd σ.log n (σ.log n ++ (step (σ.st n) i).out),
                                hist := σ.hist ++ evsOf H n (stepCore (σ.st n) i).out }
 
@@ -463,13 +479,14 @@ theorem sys_step_inv {powers : List Nat} {byz : Nat → Bool} {H : Nat} {σ σ' 
         cases pre' <;> simp at hs
     · intro n hn
       obtain ⟨cx, hp, hin, hse⟩ := hnodes n hn
-      refine ⟨⟨cx.good, cx.below, cx.once, cx.held, ?_⟩, hp, fun e' he' => List.mem_append_left _ (hin e' he'), SeenAt_append hse _⟩
+      refine ⟨⟨cx.good, cx.below, cx.once, cx.held, cx.tmo, ?_⟩, hp, fun e' he' => List.mem_append_left _ (hin e' he'), SeenAt_append hse _⟩
       intro e' he' ha
       rcases List.mem_append.1 he' with he' | he'
       · exact cx.own e' he' ha
       · simp at he'; subst he'; rw [ha, hn] at hb; cases hb
-  | deliver n i hn ht hrecv =>
+  | deliver n i hn hsch hrecv =>
     obtain ⟨cx, hp, hin, hse⟩ := hnodes n hn
+    have ht : WellTimed (σ.st n) i := wellTimed_of_sched cx.tmo hsch
     have hseen : (σ.st n).height = H → Seen Event.prevote σ.hist (stepCore (σ.st n) i).pvs ∧
         Seen Event.precommit σ.hist (stepCore (σ.st n) i).pcs := by
       intro hH
@@ -491,7 +508,8 @@ theorem sys_step_inv {powers : List Nat} {byz : Nat → Bool} {H : Nat} {σ σ' 
         have hhe := held_step (σ.st m) i (σ.log m) cx.good.1 ht cx.below cx.held
         have hpw : (step (σ.st m) i).powers = powers := by
           rw [step_powers, (Spec_unfold cx.good.1 (stepCore_Spec (σ.st m) i ht)).2.2.1, hp]
-        refine ⟨⟨step_Good _ i cx.good ht, ho2, ho1, hhe, ?_⟩, hpw, ?_, SeenAt_append (seen_step i cx.good.1 ht hse hrecv) _⟩
+        refine ⟨⟨step_Good _ i cx.good ht, ho2, ho1, hhe, timeouts_step _ i _ cx.good.1 ht cx.tmo, ?_⟩, hpw, ?_,
+          SeenAt_append (seen_step i cx.good.1 ht hse hrecv) _⟩
         · intro e' he' ha
           rw [evsOf_append, evsOf_step]
           rcases List.mem_append.1 he' with he' | he'
@@ -506,7 +524,7 @@ theorem sys_step_inv {powers : List Nat} {byz : Nat → Bool} {H : Nat} {σ σ' 
         have hst : upd σ.st n (step (σ.st n) i) m = σ.st m := by simp [upd, hmn]
         have hlg : upd σ.log n (σ.log n ++ (step (σ.st n) i).out) m = σ.log m := by simp [upd, hmn]
         simp only [hst, hlg]
-        refine ⟨⟨cxm.good, cxm.below, cxm.once, cxm.held, ?_⟩, hpm, fun e' he' => List.mem_append_left _ (hinm e' he'), SeenAt_append hsem _⟩
+        refine ⟨⟨cxm.good, cxm.below, cxm.once, cxm.held, cxm.tmo, ?_⟩, hpm, fun e' he' => List.mem_append_left _ (hinm e' he'), SeenAt_append hsem _⟩
         intro e' he' ha
         rcases List.mem_append.1 he' with he' | he'
         · exact cxm.own e' he' ha
@@ -530,9 +548,10 @@ theorem init_inv {powers : List Nat} {byz : Nat → Bool} (H : Nat) {σ : Sys} (
   intro n hb
   obtain ⟨hg, hp, hl, hr⟩ := hn n hb
   obtain ⟨f1, f2⟩ := fresh_tables _ hr
-  refine ⟨⟨hg, ?_, ?_, ?_, ?_⟩, hp, ?_, fun _ => ⟨Seen_fresh _ _ _ f1, Seen_fresh _ _ _ f2⟩⟩
+  refine ⟨⟨hg, ?_, ?_, ?_, ?_, ?_⟩, hp, ?_, fun _ => ⟨Seen_fresh _ _ _ f1, Seen_fresh _ _ _ f2⟩⟩
   · rw [hl]; intro _ _ _ _ hm; cases hm
   · rw [hl]; intro _ _ _ _ _ hm; cases hm
+  · rw [hl]; intro _ _ _ hm; cases hm
   · rw [hl]; intro _ _ _ hm; cases hm
   · rw [hh]; intro _ hm; cases hm
   · rw [hl]; intro _ hm; simp [evsOf] at hm
@@ -576,6 +595,18 @@ theorem recv_of_B {H : Nat} {hist : List Event} {i : In} (h : recvB H hist i = t
   · intro ht; subst ht; simpa using h.1
   · intro ht; subst ht; simpa [tPrecommit, tPrevote] using h.2
 
+def schedB (log : List Out) : In → Bool
+  | .timeout h r st => log.contains (Out.timeout h r st) || r == 0
+  | _ => true
+
+theorem sched_of_B {log : List Out} {i : In} (h : schedB log i = true) : Sched log i := by
+  intro h' r st e
+  subst e
+  simp only [schedB, Bool.or_eq_true, beq_iff_eq] at h
+  rcases h with h | h
+  · exact Or.inl (List.contains_iff_mem.1 h)
+  · exact Or.inr h
+
 /-- the system after a list of deliveries `(validator, input)` -/
 def runSys (H : Nat) : Sys → List (Nat × In) → Sys
   | σ, [] => σ
@@ -587,7 +618,7 @@ def runSys (H : Nat) : Sys → List (Nat × In) → Sys
 def okSys (byz : Nat → Bool) (H : Nat) : Sys → List (Nat × In) → Bool
   | _, [] => true
   | σ, (n, i) :: rest =>
-    !byz n && wellTimedB (σ.st n) i && recvB H σ.hist i &&
+    !byz n && schedB (σ.log n) i && recvB H σ.hist i &&
     okSys byz H { st := upd σ.st n (step (σ.st n) i), log := upd σ.log n (σ.log n ++ (step (σ.st n) i).out),
                   hist := σ.hist ++ evsOf H n (stepCore (σ.st n) i).out } rest
 
@@ -598,7 +629,7 @@ theorem reach_runSys (powers : List Nat) (byz : Nat → Bool) (H : Nat) : ∀ (l
     simp only [okSys, Bool.and_eq_true, Bool.not_eq_true'] at hok
     obtain ⟨⟨⟨h1, h2⟩, h3⟩, h4⟩ := hok
     exact reach_runSys powers byz H rest σ0 _
-      (Reach.step hr (SysStep.deliver σ n i h1 (wellTimed_of_B h2) (recv_of_B h3))) h4
+      (Reach.step hr (SysStep.deliver σ n i h1 (sched_of_B h2) (recv_of_B h3))) h4
 
 /-- validators 0, 1, 2 correct, 3 Byzantine (and silent); every correct node starts height 1 as `initSt` -/
 def exByz : Nat → Bool := fun n => n == 3
